@@ -92,6 +92,14 @@ def run_case(desc, ctx):
             bad.append('sample names %s vs alignment %s' % (vnames, gn))
         if contigs != st['contig_names']:
             bad.append('contig header %s' % contigs)
+        total = sum(len(c) for c in ref)
+        if any(len(x) != total for x in gs):
+            # positions of the alignment cannot be related to (contig, position) pairs at all
+            res.violate('C05:%s:length' % (fl or 'none'),
+                        'k=%d rc=%s flags=%s kind=%s (%s): alignment sequences have length %s, the concatenated reference %d; '
+                        'VCF has %d records under contigs %s' % (k, rcmode, fl or 'none', desc['kind'], variant, sorted(set(map(len, gs))), total, len(recs), contigs),
+                        {'ref': ref, 'samples': st['samples'], 'alignment': gs, 'vcf': v.stdout[-2000:]})
+            continue
         by_key = {}
         order = []
         for r in recs:
